@@ -751,8 +751,18 @@ Definition texts_of (p : list (str * wc * wc)) : list str :=
 (** One correspondence case: program [t] (stored without markers), marker
     assignment number [n] over [p] positions, data [d]; the implementation's
     outcome is [exp]: [None] for a LiquidSyntaxError, else (index of the output
-    in [tbl], markers of every ContentNode, indexes of the RawNode texts). *)
-Definition outcome := (N * list (wc * wc) * list N)%type.
+    in [tbl], [pairs_code] of the markers of every ContentNode, indexes of the RawNode texts). *)
+Definition outcome := (N * N * list N)%type.
+
+(** A list of marker pairs as one number (base 4, a leading 1 keeps the length). *)
+Definition wc_digit (w : wc) : N :=
+  match w with Default => 0 | Minus => 1 | Tilde => 2 | Plus => 3 end.
+
+Fixpoint pairs_code (p : list (wc * wc)) : N :=
+  match p with
+  | [] => 1
+  | (l, r) :: p' => wc_digit l + 4 * (wc_digit r + 4 * pairs_code p')
+  end.
 
 Definition tbl_get (tbl : list str) (i : N) : str := nth (N.to_nat i) tbl [0].
 
@@ -761,7 +771,7 @@ Definition check_case (cf : cfg) (t : tree) (p : nat) (n : N) (d : data)
   match observe cf (fst (remark (digits4 p n) t)) d, exp with
   | Ok (out, pairs, raws), Some (oi, epairs, eraws) =>
       str_eqb out (tbl_get tbl oi)
-      && list_eqb (prod_eqb wc_eqb wc_eqb) (markers_of pairs) epairs
+      && (pairs_code (markers_of pairs) =? epairs)
       && list_eqb str_eqb raws (map (tbl_get tbl) eraws)
   | LErr LiquidSyntaxError _, None => true
   | _, _ => false
